@@ -295,4 +295,13 @@ theorem flatten_replicate_singleton {α : Type} (k : Nat) (x : α) :
   | zero => rfl
   | succ k ih => simp [List.replicate_succ, ih]
 
+/-- `[c for _ in range(k)]` is `k` copies of `c` -/
+theorem range_map_const {α : Type} (k : Nat) (c : α) :
+    ((List.range k).map Int.ofNat).map (fun (_ : Int) => c) = List.replicate k c := by
+  induction k with
+  | zero => rfl
+  | succ k ih =>
+    rw [List.range_succ, List.map_append, List.map_append, ih]
+    simp [List.replicate_succ']
+
 end OQ.C13
